@@ -28,8 +28,7 @@ TraceTerm(M, P0) == DM!MatInner(M, P0)
 LogDet(logs) == LET s == DM!Sum(logs) IN Add(s, s)
 Objective(M, vab, vcd, wn, g, P0, logs) == Sub(Add(CompLoss(M, vab, vcd, wn, g), TraceTerm(M, P0)), LogDet(logs))
 
-RECURSIVE SumMatSeq(_, _, _)
-SumMatSeq(f, i, d) == IF i > Len(f) THEN DM!ZeroMat(d, d) ELSE DM!MAdd(f[i], SumMatSeq(f, i + 1, d))
+SumMatSeq(f, i, d) == DM!SumMats(f, i, d)           \* (Mat.tla: evaluated eagerly)
 Gradient(M, vab, vcd, wn, q1, q2, P, P0) ==
   LET d == Len(M) IN
   DM!MAdd(DM!MSub(P0, P),
